@@ -433,8 +433,15 @@ func calleeName(c *ssa.CallCommon) (key string, short string, sig *types.Signatu
 		return g.String(), g.Name(), f.Signature, f
 	}
 	sig, _ = c.Value.Type().Underlying().(*types.Signature)
-	if n, ok := c.Value.Type().(*types.Named); ok {
+	switch n := c.Value.Type().(type) {
+	case *types.Named:
 		return "functype " + n.String(), n.Obj().Name(), sig, nil
+	case *types.Alias:
+		name := n.Obj().Name()
+		if n.Obj().Pkg() != nil {
+			name = n.Obj().Pkg().Path() + "." + name
+		}
+		return "functype " + name, n.Obj().Name(), sig, nil
 	}
 	return "", "funcvalue", sig, nil
 }
@@ -475,7 +482,13 @@ func (e *Enc) execCall(v ssa.Value, c *ssa.CallCommon, in ssa.Instruction, guard
 		return
 	}
 	key, short, sig, sfn := calleeName(c)
-	if op, ok := isLockKey(key); ok {
+	op, isLock := isLockKey(key)
+	if !isLock {
+		if lfc := e.W.C.Funcs[normalizeFnKey(key)]; lfc != nil && lfc.Opts["lockop"] != "" {
+			op, isLock = lfc.Opts["lockop"], true
+		}
+	}
+	if ok := isLock; ok {
 		e.applyAtsIn(in, "before call", short, in.Pos(), nil, nil)
 		if e.execLockOp(op, c, in) {
 			if v != nil {
@@ -767,8 +780,8 @@ func (e *Enc) applyAtsIn(in ssa.Instruction, kind, name string, pos token.Pos, a
 	if in != nil {
 		ord = e.siteOrdinal(in, base, name)
 	}
-	anchor1 := strings.TrimSpace(fmt.Sprintf("%s %s#%d", kind, name, ord))
 	anchor2 := strings.TrimSpace(fmt.Sprintf("%s %s", kind, name)) // every occurrence
+	anchor1 := fmt.Sprintf("%s#%d", anchor2, ord)
 	for ai, at := range e.fc.Ats {
 		if at.Anchor != anchor1 && at.Anchor != anchor2 {
 			continue
